@@ -892,3 +892,36 @@ func genC18(t *rapid.T, spec *GenSpec) *Program {
 	p.Extra = b
 	return p
 }
+
+// ---------------------------------------------------------------
+// C05: crash workloads
+
+func genC05(t *rapid.T, spec *GenSpec) *Program {
+	p := &Program{Prop: "C05"}
+	p.Cfg = genConfig(t, spec)
+	p.Cfg.Backing = "store"
+	p.Cfg.KeepFiles = false
+	g := &genState{spec: spec, model: NewNode(), deadKids: map[string]bool{}}
+	g.keys = genKeyPool(t, spec.Hostile, 8)
+	n := rapid.IntRange(1, 16).Draw(t, "nops")
+	for i := 0; i < n; i++ {
+		switch pick(t, "op", 55, 38, 7) {
+		case 0:
+			p.Ops = append(p.Ops, Op{Kind: "batch", B: g.nextBatch(t)})
+		case 1:
+			p.Ops = append(p.Ops, Op{Kind: "mstep", MKind: mstepKinds[pick(t, "mkind", 60, 20, 20)]})
+		case 2:
+			p.Ops = append(p.Ops, Op{Kind: "reopen", Drain: true})
+		}
+	}
+	x := C05Extra{}
+	for i := 0; i < 6; i++ {
+		x.Masks = append(x.Masks, rapid.Uint64().Draw(t, "mask"))
+	}
+	for i := 0; i < 3; i++ {
+		x.Tears = append(x.Tears, rapid.IntRange(2, 9000).Draw(t, "tear"))
+	}
+	b, _ := json.Marshal(&x)
+	p.Extra = b
+	return p
+}
